@@ -171,3 +171,73 @@ pub open spec fn is_fresh(st: &ParseState<'_, &str>, format: &NarseseFormat<&str
     &&& st.head == 0
     &&& mid_empty(st.mid_result)
 }
+
+// ---- C03 / C10: which keyword selects which constructor in the ENUM PARSER ----------------
+// The parser tries the keywords in a fixed order and takes the first that occurs at the cursor.
+// `first_at(st, ks, k)`: keyword ks[k] occurs at the cursor and no earlier listed one does.
+pub open spec fn first_at(st: &ParseState<'_, &str>, ks: Seq<Seq<char>>, k: int) -> bool {
+    0 <= k < ks.len() && st.at_head(ks[k]) && forall|j: int| 0 <= j < k ==> !st.at_head(#[trigger] ks[j])
+}
+/// order in which parse_statement tries the copulas
+pub open spec fn stmt_try_order(f: &NarseseFormat<&str>) -> Seq<Seq<char>> { copula_seq(f) }
+/// C10: constructor (and operand placement) the property assigns to the k-th copula, for the
+/// already parsed subject `s` (the predicate is whatever is parsed next)
+pub open spec fn stmt_shape(k: int, t: Term, s: Term) -> bool {
+    if k == 0 { t matches Term::Inheritance(a, _) && *a == s }
+    else if k == 1 { t matches Term::Similarity(a, _) && *a == s }
+    else if k == 2 { t matches Term::Implication(a, _) && *a == s }
+    else if k == 3 { t matches Term::Equivalence(a, _) && *a == s }
+    // instance: <S {-- P> is <{S} --> P>
+    else if k == 4 { t matches Term::Inheritance(a, b) && (*a matches Term::SetExtension(x) && x@ == set![s]) && !(*b is SetIntension && false) }
+    // property: <S --] P> is <S --> [P]>
+    else if k == 5 { t matches Term::Inheritance(a, b) && *a == s && *b is SetIntension }
+    // instance-property: <S {-] P> is <{S} --> [P]>
+    else if k == 6 { t matches Term::Inheritance(a, b) && (*a matches Term::SetExtension(x) && x@ == set![s]) && *b is SetIntension }
+    else if k == 7 { t matches Term::ImplicationPredictive(a, _) && *a == s }
+    else if k == 8 { t matches Term::ImplicationConcurrent(a, _) && *a == s }
+    else if k == 9 { t matches Term::ImplicationRetrospective(a, _) && *a == s }
+    else if k == 10 { t matches Term::EquivalencePredictive(a, _) && *a == s }
+    else if k == 11 { t matches Term::EquivalenceConcurrent(a, _) && *a == s }
+    // retrospective equivalence: predictive equivalence with the operands swapped
+    else { t matches Term::EquivalencePredictive(_, b) && *b == s }
+}
+/// order in which parse_compound tries the connecters (after rejecting the operator prefix)
+pub open spec fn compound_try_order(f: &NarseseFormat<&str>) -> Seq<Seq<char>> {
+    seq![
+        f.compound.connecter_conjunction@, f.compound.connecter_disjunction@, f.compound.connecter_negation@,
+        f.compound.connecter_conjunction_sequential@, f.compound.connecter_conjunction_parallel@,
+        f.compound.connecter_intersection_extension@, f.compound.connecter_intersection_intension@,
+        f.compound.connecter_difference_extension@, f.compound.connecter_difference_intension@,
+        f.compound.connecter_product@, f.compound.connecter_image_extension@, f.compound.connecter_image_intension@,
+    ]
+}
+pub open spec fn compound_kind(k: int, t: Term) -> bool {
+    if k == 0 { t is Conjunction } else if k == 1 { t is Disjunction } else if k == 2 { t is Negation }
+    else if k == 3 { t is ConjunctionSequential } else if k == 4 { t is ConjunctionParallel }
+    else if k == 5 { t is IntersectionExtension } else if k == 6 { t is IntersectionIntension }
+    else if k == 7 { t is DifferenceExtension } else if k == 8 { t is DifferenceIntension }
+    else if k == 9 { t is Product } else if k == 10 { t is ImageExtension } else { t is ImageIntension }
+}
+/// order in which parse_atom tries the prefixes (word, the empty prefix, is the fallback)
+pub open spec fn atom_try_order(f: &NarseseFormat<&str>) -> Seq<Seq<char>> {
+    seq![
+        f.atom.prefix_placeholder@, f.atom.prefix_variable_independent@, f.atom.prefix_variable_dependent@,
+        f.atom.prefix_variable_query@, f.atom.prefix_interval@, f.atom.prefix_operator@, f.atom.prefix_word@,
+    ]
+}
+pub open spec fn atom_kind(k: int, t: Term) -> bool {
+    if k == 0 { t is Placeholder } else if k == 1 { t is VariableIndependent } else if k == 2 { t is VariableDependent }
+    else if k == 3 { t is VariableQuery } else if k == 4 { t is Interval } else if k == 5 { t is Operator } else { t is Word }
+}
+pub open spec fn punct_try_order(f: &NarseseFormat<&str>) -> Seq<Seq<char>> {
+    seq![f.sentence.punctuation_judgement@, f.sentence.punctuation_goal@, f.sentence.punctuation_question@, f.sentence.punctuation_quest@]
+}
+pub open spec fn punct_kind(k: int, p: Punctuation) -> bool {
+    if k == 0 { p is Judgement } else if k == 1 { p is Goal } else if k == 2 { p is Question } else { p is Quest }
+}
+pub open spec fn stamp_try_order(f: &NarseseFormat<&str>) -> Seq<Seq<char>> {
+    seq![f.sentence.stamp_fixed@, f.sentence.stamp_past@, f.sentence.stamp_present@, f.sentence.stamp_future@]
+}
+pub open spec fn stamp_kind(k: int, s: Stamp) -> bool {
+    if k == 0 { s is Fixed } else if k == 1 { s is Past } else if k == 2 { s is Present } else { s is Future }
+}
